@@ -699,10 +699,31 @@ class IntNStringReceiver(protocol.Protocol, _PauseableMixin):
         """
         self.transport.loseConnection()
 
+    _busyReceiving = False
+    _reentrantData = None
+
     def dataReceived(self, data):
         """
         Convert int prefixed strings into calls to stringReceived.
         """
+        if self._busyReceiving:
+            # Called from within stringReceived (for example by
+            # resumeProducing): the running call keeps parsing once the
+            # current callback returns, and picks up this data afterwards.
+            if data:
+                if self._reentrantData is None:
+                    self._reentrantData = []
+                self._reentrantData.append(data)
+            return
+        self._busyReceiving = True
+        try:
+            self._processData(data)
+            while self._reentrantData:
+                self._processData(self._reentrantData.pop(0))
+        finally:
+            self._busyReceiving = False
+
+    def _processData(self, data):
         # Try to minimize string copying (via slices) by keeping one buffer
         # containing all the data we have so far and a separate offset into that
         # buffer.
